@@ -10,6 +10,14 @@ CHECKS = {
    text="The input space (every scalar value in every spelling Go allows) is finite and enumerated completely, for both the generator's own reader and the emitted util package compiled from a real gocc run; decimal literals up to length 4 plus 64-bit boundary neighbourhoods.",
    note="strconv.UnquoteChar/ParseInt/ParseUint are the oracle; decimal literals longer than the bound are covered only at the boundaries.", ref="6 C20"),
 }
+CHECKS.update({
+ "C01": dict(cat="model_checking", tech="product automaton (emitted DFA x reference position automaton) explored to closure per grammar of an enumerated family + exhaustive byte strings on compiled lexers",
+   text="For each of several thousand enumerated lexical grammars the complete reachable product of the emitted DFA (read back from the files the real generator wrote) with an independently built reference automaton is explored to a fixed point, which decides agreement for rune strings of every length; a selection of the same grammars is compiled unmodified and driven with every byte string up to a bound (including ill-formed UTF-8) against a reference tokenizer that transcribes the statement; one witness per product state is replayed on the compiled code.",
+   note="Reference models (position automaton with macro-expanded regular definitions, '.' as fallback; tokenizer) are transcriptions of the statement; table reader is bound to the compiled tables by probing TransTab/ActTab; grammars outside the enumerated families are not covered.", ref="6 C01"),
+ "C08": dict(cat="exploration", tech="exhaustive byte strings up to a bound on compiled unmodified lexers against a reference tokenizer (positions, literals, tiling)",
+   text="Every byte string up to the bound over an alphabet that always contains newline, tab, a multi-byte rune and ill-formed bytes is scanned by compiled unmodified lexers of a grammar selection; offset, line, column and literal of every token (INVALID, EOF and post-EOF calls included) must equal the reference tokenizer's, which implies tiling.",
+   note="Positions are compared for a selection of lexers (distinct emitted tables); longer inputs than the bound are covered only through product-state witnesses.", ref="6 C08"),
+})
 NOT_YET = {}
 
 def main():
